@@ -19,6 +19,9 @@ from harness.core import Prop, outcome, unrat
 
 EPS = 2.0 ** -52
 REL = 1e-9
+EPS32 = 2.0 ** -23  # images held as float32: NumPy computes means, products and standard deviations in float32
+REL32 = 2e-5
+DT = {"f8": np.float64, "f4": np.float32, "i8": np.int64, "i4": np.int32, "i2": np.int16, "u2": np.uint16, "u1": np.uint8}
 # Behaviour the property text does not reach (the value returned as "probability" for n = 0 shuffles) is compared with
 # the model and the outcome recorded as a feature; it is judged (impl-vs-model) only with this switch on.
 JUDGE_OUTSIDE_PROPERTY = False
@@ -68,6 +71,137 @@ def with_layout(a, layout, perm=None):
     if layout == "perm" and perm is not None and sorted(perm) == list(range(a.ndim)):
         return np.array(a.transpose(perm), order="C", copy=True).transpose(np.argsort(perm))
     return a
+
+
+# ---- large images: compact, lossless encodings (the abstract case and the driver request stay small)
+BIG = 4096  # arrays with more elements than this are judged through the quasi-linear Lean forms (c14.shuffle_big)
+
+
+def lin_image(form, shape):
+    """the image of a formula [a, c, m]: a * p + c at flat position p (m = 0) or (a * p) % m + c (repeated values)"""
+    a, c, m = form
+    p = np.arange(int(np.prod(shape)), dtype=np.int64)
+    v = a * p if m == 0 else (a * p) % m
+    return (v + c).astype(np.float64).reshape(shape)
+
+
+def rle_encode(flags):
+    """run lengths of a flat 0/1 array, alternating, starting with the length of the leading run of zeros"""
+    f = np.asarray(flags).ravel() != 0
+    if f.size == 0:
+        return []
+    cuts = np.flatnonzero(f[1:] != f[:-1]) + 1
+    runs = np.diff(np.concatenate(([0], cuts, [f.size]))).tolist()
+    return ([0] + runs) if f[0] else runs
+
+
+def rle_decode(runs, n):
+    out = np.zeros(n, dtype=bool)
+    pos, v = 0, False
+    for r in runs:
+        out[pos:pos + r] = v
+        pos, v = pos + r, not v
+    if pos != n:
+        raise core.InternalError("mask runs do not add up to the image size")
+    return out
+
+
+def arange_runs(a):
+    """[[start, count], ...]: runs of consecutive integers (lossless; short for the ascending index lists)"""
+    a = np.asarray(a, dtype=np.int64).ravel()
+    if a.size == 0:
+        return []
+    cuts = np.flatnonzero(np.diff(a) != 1) + 1
+    starts = np.concatenate(([0], cuts))
+    ends = np.concatenate((cuts, [a.size]))
+    return [[int(a[s]), int(e - s)] for s, e in zip(starts, ends)]
+
+
+def int_vals(arr):
+    """exact values of a float array for the driver: plain integers when every value is one, else None"""
+    a = np.asarray(arr, dtype=np.float64).ravel()
+    if not (np.all(np.isfinite(a)) and np.all(a == np.rint(a)) and np.all(np.abs(a) < 2.0 ** 53)):
+        return None
+    return a.astype(np.int64).tolist()
+
+
+class BigPermRecorder:
+    """PermRecorder for long index lists (numpy throughout); seeded, records argument and result of every call"""
+
+    def __init__(self, seed, style):
+        self.gen = np.random.Generator(np.random.PCG64(seed))
+        self.style = style
+        self.calls = []
+
+    def __call__(self, a):
+        arr = np.arange(a) if isinstance(a, (int, np.integer)) else np.array(a)
+        if arr.ndim != 1:
+            raise core.InternalError("permutation called with a non 1-D argument")
+        if self.style == "reverse":
+            out = arr[::-1].copy()
+        elif self.style == "rotate":
+            out = np.roll(arr, -1)
+        elif self.style == "identity":
+            out = arr.copy()
+        else:
+            out = arr[self.gen.permutation(arr.size)]
+        self.calls.append((arr.copy(), out.copy()))
+        return out
+
+
+class ShuffleObs:
+    """one observed call of shuffle_blocks: the argument arrays before and after, the return value, and which calls of
+    numpy.random.permutation happened inside it"""
+
+    def __init__(self, fn, x, block, mask, mode, partial, rec, kwargs=None):
+        self.block, self.mode, self.partial = [int(b) for b in block], mode, bool(partial)
+        self.shape = list(x.shape)
+        self.x0, self.m0 = x.copy(), None if mask is None else mask.copy()
+        self.cC, self.fC = bool(x.flags.c_contiguous), bool(x.flags.f_contiguous)
+        self.mask_obj, self.x_obj = mask, x
+        k0 = len(rec.calls) if rec is not None else 0
+        self.res, self.exc = None, None
+        try:
+            self.ret = fn(x, block, **(kwargs if kwargs is not None else dict(mask=mask, mode=mode, shuffle_partial=partial)))
+            self.res = np.asarray(self.ret).copy()
+        except core.InternalError:
+            raise
+        except Exception as e:  # the caller re-raises for a spied call
+            self.ret, self.exc = None, e
+        self.perm_calls = rec.calls[k0:] if rec is not None else []
+        self.mask_unchanged = True if mask is None else bool(mask.dtype == self.m0.dtype and np.array_equal(mask, self.m0))
+        self.mask_after = None if mask is None else mask.copy()
+        self.x_after = x.copy() if x.size <= BIG else None
+        self.x_unchanged = bool(np.array_equal(x, self.x0))
+        self.x_is_result = self.res is not None and self.res.shape == x.shape and bool(np.array_equal(x, self.res))
+
+
+class ShuffleSpy:
+    """while active, every call that pewlib.process.colocal makes to shuffle_blocks is observed (return values of
+    shuffle_blocks are observation points of the property, whoever calls it); the real function does the work"""
+
+    def __init__(self, module, rec):
+        self.module, self.rec, self.obs = module, rec, []
+        self.real = getattr(module, "shuffle_blocks", None)
+
+    def __enter__(self):
+        if self.real is not None:
+            spy = self
+
+            def wrapper(x, block, mask=None, mode="pad", shuffle_partial=False):
+                o = ShuffleObs(spy.real, x, block, mask, mode, shuffle_partial, spy.rec)
+                spy.obs.append(o)
+                if o.exc is not None:
+                    raise o.exc
+                return o.ret
+
+            self.module.shuffle_blocks = wrapper
+        return self
+
+    def __exit__(self, *a):
+        if self.real is not None:
+            self.module.shuffle_blocks = self.real
+        return False
 
 
 def values(ints, den, off, spow):
@@ -141,7 +275,22 @@ class C14(Prop):
             "permuted axis order; every case through the n-D Lean model, 1-D and 2-D cases also through the 2-D model; "
             "prob: 2-D pairs, mask None/full/partial/ragged, blocks 1..5, n = 0..6 (n = 0: NaN, model only), all layouts. non-trivial = at least two blocks "
             "selected and moved, or a non-multiple shape, or a partial mask, or ties/threshold-on-value in coeff; distinct by "
-            "canonical case hash")
+            "canonical case hash. "
+            "coeff also: float32 / int64 / int32 / int16 / uint16 / uint8 images (same or different types for x and y; used when the type holds "
+            "the values exactly), Fortran-ordered / strided / transposed views independently for x and y, exact zeros as negative zeros, "
+            "means that are pixel values in both images (deviation exactly zero in x, in y, in both at one pixel). "
+            "shuffle also: mask None, image element types float32/int64/uint16, calls that leave out the arguments that have their default. "
+            "big (1.4% of the cases + 4 targeted in quick, 10 in thorough): one call moves more than 2^15 (2^16) blocks - 1-D arrays of "
+            "33000..270000 elements and 2-D images up to about 410 x 410 (quick) / 700 x 700 (thorough), blocks 1..3 per axis, both modes, "
+            "partial on/off, masks full / frame switched off / sparse holes / rows, values distinct or repeated, float masks, Fortran layout; "
+            "image, mask, permutation argument travel as formula / run lengths / index runs, result and recorded permutation as integer lists; "
+            "judged by c14.shuffle_big (quasi-linear forms of the same Lean relations; every ordinary 1-D/2-D shuffle case goes through both forms, "
+            "which must agree); also pearsonr_probablity with its default block on such images. "
+            "history (11.6% + 10 targeted): 2-3 consecutive calls of shuffle_blocks / pearsonr_probablity that share the mask object (edited in place by "
+            "the caller between the calls / unchanged / another object of equal or other content) and the image object, with the same or "
+            "changed block / mode / partial; every call judged for the array contents at the time of that call. "
+            "prob also: every call pearsonr_probablity makes to shuffle_blocks is observed and judged as a shuffle of its own, and against the "
+            "mask the routine was given (no pixel outside its selected blocks moves); default block; default arguments left out")
     trusted = ["the contiguity flags of the argument array (x.flags.c_contiguous / f_contiguous) are read from NumPy and are part of the input "
                "description; from them the Lean model derives whether the block view aliases the array (np.pad keeps Fortran order only for "
                "arrays that are Fortran- and not C-contiguous; np.ascontiguousarray copies exactly when the array is not C-contiguous; "
@@ -155,14 +304,26 @@ class C14(Prop):
                "evaluated in float64 for the given data: the data unit and the unit of the products (so every sum, mean and product), "
                "the two variances formed inside the standard deviations (so also their product), the smallest non-zero deviations and "
                "their product (ICQ) are >= 2^-960, and the sums of |x|, |y|, |xy|, x^2, y^2 and 4 sum|x| sum|y| are <= 2^1000 (exact "
-               "rational test in evaluate, also for the two affine variants); otherwise undetermined"]
+               "rational test in evaluate, also for the two affine variants); otherwise undetermined",
+               "float32 images: NumPy evaluates means, products and standard deviations in float32; an r that involves a float32 image is "
+               "compared at 2e-5 + 64*2^-23*(E|xy| + E|x|E|y|)/(sx sy), a Manders ratio of a float32 image at 2e-5 relative, and the ICQ is "
+               "undetermined when a non-zero deviation is below 1e-4 of the scale; integer images whose product x*y does not fit the integer "
+               "type (NumPy wraps silently): r and r_yx are recorded (feature dtype:integer-product-wraps), not judged - see notes/EC14.md",
+               "large shuffles: Python encodes (run lengths, integer lists) and snapshots; the relations are evaluated by the Lean driver in "
+               "their quasi-linear forms, proved equal to the reference forms (spec_outside_fast, spec_blocks_fast) and re-checked against "
+               "them on every small case; 'equal to the model's output for the recorded permutation' is the certificate specOutside + "
+               "specApplied (applied_determines_output, model_satisfies_applied); Std.HashSet of the Lean toolchain is trusted as compiled",
+               "calls of shuffle_blocks made by pearsonr_probablity are observed by replacing the name shuffle_blocks in pewlib.process.colocal "
+               "with a recording wrapper around the real function for the duration of the call (restored afterwards); an implementation "
+               "that does not go through that name is judged on r, p and the argument arrays only",
+               "the default block of pearsonr_probablity is read from its signature (inspect) when the case leaves the argument out"]
     assumptions = ["float64 images with dyadic values (sums and products exact); images non-constant over the pixels used; "
                    "Manders only with a non-zero image sum; block sizes >= 1; the 'fraction in [0, 1]' clause for n >= 1 shuffles (n = 0 gives NaN = 0/0 in "
                    "the code and `none` in the model; compared impl-vs-model only)"]
 
     # ------------------------------------------------------------------ generation
     def gen_pair(self, rng, n):
-        style = rng.choice(["indep", "corr", "anti", "tiles", "ties", "smallrange"])
+        style = rng.choice(["indep", "corr", "anti", "tiles", "ties", "ties2", "smallrange"])
         if style == "indep":
             x = [rng.randint(0, 60) for _ in range(n)]
             y = [rng.randint(0, 60) for _ in range(n)]
@@ -179,6 +340,14 @@ class C14(Prop):
             x = ([10 + v for v in half] + [10 - v for v in half] + [10] * n)[:n]
             y = [rng.choice([4, 5, 6]) for _ in range(n)]
             rng.shuffle(x)
+        elif style == "ties2":  # both means are pixel values: deviations exactly zero in x, in y, in both at once, and a zero
+            # deviation paired with either sign of the other ("do not have opposite signs" counts all of them)
+            def sym(c):
+                half = [rng.randint(1, 4) for _ in range(max(1, n // 3))]
+                v = ([c + h for h in half] + [c - h for h in half] + [c] * n)[:n]
+                rng.shuffle(v)
+                return v
+            x, y = sym(10), sym(7)
         else:
             x = [rng.randint(0, 2) for _ in range(n)]
             y = [rng.randint(0, 2) for _ in range(n)]
@@ -189,16 +358,30 @@ class C14(Prop):
         return x, y, style
 
     def generate(self, rng, tier):
+        u = rng.random()
+        if u < 0.014:
+            return self.gen_big(rng, tier)
+        if u < 0.13:
+            return self.gen_history(rng)
         stream = rng.choice(["coeff", "coeff", "shuffle", "shuffle", "shuffle", "prob"])
         if stream == "coeff":
             ndim = rng.choice([1, 2])
             shape = [rng.randint(2, 40)] if ndim == 1 else [rng.randint(1, 8), rng.randint(2, 8)]
             n = int(np.prod(shape))
             x, y, style = self.gen_pair(rng, n)
-            neg = rng.random() < 0.2
-            offx = rng.choice([0, 0, 0, 100, 4096]) if not neg else -rng.choice([3, 30])
-            offy = rng.choice([0, 0, 0, 100, 4096]) if not neg else -rng.choice([3, 30])
-            den = rng.choice([1, 1, 4, 8])
+            # element type of the two images (drawn first: integer types want integer values that fit)
+            dtype = None
+            if rng.random() < 0.4:
+                d = rng.choice(["f4", "f4", "f4", "i8", "i4", "i2", "u2", "u1"])
+                dtype = [d, d] if rng.random() < 0.6 else [d, rng.choice(["f8", "f4", "i8", "i4", "u2", "u1"])]
+                if rng.random() < 0.5:
+                    dtype.reverse()
+            ints = dtype is not None and any(d[0] in "iu" for d in dtype)
+            neg = rng.random() < 0.2 and not (dtype is not None and any(d[0] == "u" for d in dtype))
+            offs = [0, 0, 0, 100] if ints else [0, 0, 0, 100, 4096]
+            offx = rng.choice(offs) if not neg else -rng.choice([3, 30])
+            offy = rng.choice(offs) if not neg else -rng.choice([3, 30])
+            den = 1 if ints else rng.choice([1, 1, 4, 8])
 
             def thr(vals, off):
                 k = rng.choice(["none", "none", "zero", "min", "value", "between", "above"])
@@ -212,10 +395,16 @@ class C14(Prop):
                 return [q.numerator, q.denominator]
 
             case = {"kind": "coeff", "shape": shape, "x": x, "y": y, "den": den, "offx": offx, "offy": offy,
-                    "spow": rng.choice([0, 0, 0, -10, 7, 20]), "tx": thr(x, offx), "ty": thr(y, offy),
+                    "spow": rng.choice([0, 0, 0, 1, 7] if ints else [0, 0, 0, -10, 7, 20]), "tx": thr(x, offx), "ty": thr(y, offy),
                     "a_pow": rng.choice([-3, 0, 1, 5]), "b": rng.choice([0, 1, -7, 1000]), "gen": [style]}
-            if rng.random() < 0.3:  # extreme units: image x times 2^ex, image y times 2^ey (drawn last: older cases unchanged)
+            if dtype is not None:
+                case["dtype"] = dtype
+            elif rng.random() < 0.4:  # extreme units: image x times 2^ex, image y times 2^ey
                 case["xpow"] = self.gen_xpow(rng)
+            # memory layout of the two images, independently; exact zeros as negative zeros
+            lays = ["C", "C", "C", "F", "strided", "strided0", "transposed"]
+            case["lay"] = [rng.choice(lays), rng.choice(lays)]
+            case["negzero"] = rng.random() < 0.1
             return case
         if stream == "shuffle":
             ndim = rng.choice([1, 2, 2, 3, 3, 4])
@@ -240,7 +429,10 @@ class C14(Prop):
             if rng.random() < 0.2:
                 xs = [v % 3 for v in xs]  # repeated values
             mask = self.gen_mask(rng, shape, block)
-            return {"kind": "shuffle", "shape": shape, "block": block, "x": xs, "mask": mask["data"],
+            if rng.random() < 0.06:  # no mask at all: everything may be shuffled
+                mask = {"kind": "none", "data": None}
+            return {"kind": "shuffle", "shape": shape, "block": block, "x": xs, "mask": mask["data"], "defaults": rng.random() < 0.2,
+                    "xdtype": rng.choice(["f8", "f8", "f8", "f8", "i8", "f4", "u2"]),
                     "mask_float": rng.random() < 0.3, "mode": rng.choice(["pad", "inplace"]),
                     "partial": rng.random() < 0.5, "perm": rng.choice(["random", "random", "random", "identity", "reverse", "rotate", "swap2"]),
                     "pseed": rng.randrange(10 ** 9), "gen": ["mask:" + mask["kind"]],
@@ -260,10 +452,132 @@ class C14(Prop):
             y = [3 * a + b_ for a, b_ in zip(x, ys)] if rng.random() < 0.5 else ys  # distinct values
         mk = self.gen_mask(rng, shape, [b, b], allow_empty=False)
         return {"kind": "prob", "shape": shape, "x": x, "y": y, "den": rng.choice([1, 4]),
-                "mask": None if rng.random() < 0.25 else mk["data"], "block": b, "partial": rng.random() < 0.5,
+                "mask": None if rng.random() < 0.25 else mk["data"], "block": None if b == 3 and rng.random() < 0.5 else b,
+                "defaults": rng.random() < 0.25, "partial": rng.random() < 0.5,
                 "n": rng.choice([0] + [1, 2, 3, 4, 5, 6] * 5), "perm": rng.choice(["random"] * 14 + ["identity", "reverse"]),
                 "pseed": rng.randrange(10 ** 9), "gen": [style, "mask:" + mk["kind"]],
                 "layout": rng.choice(["C", "C", "F", "strided", "strided0", "transposed"]), "mask_layout": rng.choice(["C", "C", "F"])}
+
+    # ---- images of ordinary size: more than 2^15 (2^16) blocks moved by one call
+    def big_mask(self, rng, shape, block):
+        kind = rng.choice(["full", "full", "rect", "rect", "rect-holes", "holes", "rows"])
+        m = np.ones(shape, dtype=bool)
+        if kind in ("rect", "rect-holes"):  # a frame of a few pixels is switched off (cuts blocks unless it is aligned)
+            for ax in range(len(shape)):
+                lo, hi = rng.randint(0, 9), shape[ax] - rng.randint(0, 19)
+                sl = [slice(None)] * len(shape)
+                sl[ax] = slice(0, lo)
+                m[tuple(sl)] = False
+                sl[ax] = slice(hi, None)
+                m[tuple(sl)] = False
+        if kind in ("holes", "rect-holes"):
+            for _ in range(rng.randint(1, 40)):
+                m.flat[rng.randrange(m.size)] = False
+        if kind == "rows":
+            m[rng.randint(shape[0] * 3 // 4, shape[0] - 1):] = False
+        return kind, rle_encode(m)
+
+    def big_shape(self, rng, tier, block, prob=False):
+        """extents with more than 2^15 blocks (mostly), up to about 700 x 700 pixels in the thorough tier"""
+        cap_px = 170000 if tier == "quick" else 500000
+        cells = block[0] * block[1]
+        lo_b, hi_b = 33000, max(34000, cap_px // cells)
+        if rng.random() < 0.15:
+            lo_b, hi_b = 20000, 32768  # just below the 2^15 blocks
+        elif rng.random() < 0.45 and hi_b > 66000:
+            lo_b = 66000
+        nb = int(math.exp(rng.uniform(math.log(lo_b), math.log(hi_b))))
+        nb0 = max(2, int(math.sqrt(nb) * rng.uniform(0.7, 1.4)))
+        nb1 = max(2, nb // nb0 + 1)
+        mult = rng.random() < 0.5
+        return [nb0 * block[0] + (0 if mult else rng.randint(0, block[0] - 1)), nb1 * block[1] + (0 if mult else rng.randint(0, block[1] - 1))]
+
+    def big_form(self, rng):
+        return rng.choice([[1, 0, 0], [1, 0, 0], [1, 1000, 0], [3, -7, 0], [7, 0, 1000], [1, 0, 3], [11, 5, 65536]])
+
+    def gen_big(self, rng, tier):
+        if rng.random() < 0.2:
+            block = rng.choice([None, None, 3, 2])
+            b = 3 if block is None else block
+            shape = self.big_shape(rng, tier, [b, b])
+            mk, runs = self.big_mask(rng, shape, [b, b])
+            return {"kind": "bigprob", "shape": shape, "x": self.big_form(rng), "y": rng.choice([[5, 3, 1000], [1, 0, 7], [2, 5, 0], [13, 0, 4099]]),
+                    "mask_runs": None if rng.random() < 0.3 else runs, "block": block, "partial": rng.random() < 0.5,
+                    "n": rng.choice([1, 1, 2, 3]), "perm": rng.choice(["random", "random", "reverse"]), "pseed": rng.randrange(10 ** 9),
+                    "gen": ["mask:" + mk]}
+        nd = rng.choice([1, 2, 2, 2, 2, 2])
+        if nd == 1:
+            block = [rng.choice([1, 1, 2, 3])]
+            n = rng.randint(33000, 90000) * block[0] + rng.randint(0, block[0] - 1)
+            shape = [n]
+        else:
+            block = [rng.choice([1, 1, 2, 3]), rng.choice([1, 1, 2, 3])]
+            shape = self.big_shape(rng, tier, block)
+        mk, runs = self.big_mask(rng, shape, block)
+        return {"kind": "bigshuffle", "shape": shape, "block": block, "x": self.big_form(rng), "mask_runs": runs,
+                "mask_float": rng.random() < 0.15, "mode": rng.choice(["pad", "inplace"]), "partial": rng.random() < 0.5,
+                "perm": rng.choice(["random", "random", "random", "reverse", "rotate"]), "pseed": rng.randrange(10 ** 9),
+                "layout": rng.choice(["C"] * 9 + ["F"]), "gen": ["mask:" + mk]}
+
+    # ---- histories: 2-3 consecutive calls that share the mask object (edited in place in between, or not) and the image
+    def gen_history(self, rng):
+        nd = rng.choice([1, 2, 2, 2, 2, 3])
+        shape = [rng.randint(4, 24)] if nd == 1 else [rng.randint(3, 14), rng.randint(3, 14)] if nd == 2 else \
+            [rng.randint(2, 5), rng.randint(2, 6), rng.randint(2, 6)]
+        n = int(np.prod(shape))
+        xs = list(range(n))
+        rng.shuffle(xs)
+        x2, y2, _ = self.gen_pair(rng, n)
+        use_prob = nd == 2 and rng.random() < 0.45
+        mk = self.gen_mask(rng, shape, [2] * nd, allow_empty=False)
+        a = mk["data"] if rng.random() < 0.6 else [1] * n
+        masks = {"A": a, "B": list(a) if rng.random() < 0.6 else self.gen_mask(rng, shape, [2] * nd, allow_empty=False)["data"]}
+
+        def options(fn):
+            if fn == "prob":
+                return {"block": rng.choice([1, 2, 2, 3]), "partial": rng.random() < 0.5, "n": rng.choice([1, 2, 3])}
+            return {"block": [rng.randint(1, 3) for _ in range(nd)], "mode": rng.choice(["pad", "inplace"]), "partial": rng.random() < 0.5}
+
+        def edit():
+            ed = {}
+            if rng.random() < 0.8:
+                lo = [rng.randint(0, sz - 1) for sz in shape]
+                ed = {"rect": [[l, rng.randint(l + 1, sz)] for l, sz in zip(lo, shape)], "value": int(rng.random() < 0.25)}
+                if rng.random() < 0.5:  # a half plane along one axis, like `m[:k] = False`
+                    ax = rng.randrange(nd)
+                    ed["rect"] = [[0, sz] if a_ != ax else sorted(rng.choice([[0, rng.randint(1, sz)], [rng.randint(0, sz - 1), sz]])) for a_, sz in enumerate(shape)]
+            if not ed or rng.random() < 0.3:
+                ed["flip"] = [rng.randrange(n) for _ in range(rng.randint(1, 4))]
+            return ed
+
+        steps = []
+        for k in range(rng.choice([2, 2, 3])):
+            fn = "prob" if use_prob and rng.random() < 0.5 else "shuffle"
+            st = {"fn": fn, "mask": "A", "edit": None, "perm": rng.choice(["random", "random", "reverse", "rotate"]), "pseed": rng.randrange(10 ** 9)}
+            if k == 0 or rng.random() < 0.25 or steps[-1]["fn"] != fn:
+                st.update(options(fn))
+                if k > 0 and steps[-1]["fn"] != fn and rng.random() < 0.7:
+                    # the options that reach shuffle_blocks are the same whichever of the two routines is called
+                    pv = steps[-1]
+                    if fn == "prob" and pv["mode"] == "inplace" and len(set(pv["block"])) == 1:
+                        st.update(block=pv["block"][0], partial=pv["partial"])
+                    elif fn == "shuffle":
+                        st.update(block=[pv["block"]] * nd, mode="inplace", partial=pv["partial"])
+            else:  # the same options as the call before
+                st.update({kk: steps[-1][kk] for kk in ("block", "mode", "partial", "n") if kk in steps[-1]})
+            if fn == "shuffle":
+                st["img"] = rng.choice(["same", "same", "fresh"])
+            if k > 0:
+                r = rng.random()
+                if r < 0.55:
+                    st["edit"] = edit()  # same mask object, edited in place by the caller
+                elif r < 0.75:
+                    st["mask"] = "B"  # another object (of equal or other content)
+                elif r < 0.8 and fn == "prob":
+                    st["mask"] = None
+            steps.append(st)
+        return {"kind": "history", "shape": shape, "x": xs if not use_prob else x2, "y": y2 if rng.random() < 0.5 else xs, "masks": masks,
+                "steps": steps}
 
     def gen_xpow(self, rng):
         kind = rng.choice(["same", "same", "same", "opposite", "one", "mixed", "mixed", "beyond"])
@@ -365,6 +679,46 @@ class C14(Prop):
                    "den": 1, "mask": None if part else [1] * 30 + [0] * 5, "block": 2, "partial": part, "n": 0, "perm": "random",
                    "pseed": 8, "gen": ["mask:none" if part else "mask:rows"]}
 
+        # images of ordinary size: one call moves more than 2^15 / 2^16 blocks (both modes, full and partial masks, 1-D and
+        # 2-D, single-pixel and larger blocks), also through pearsonr_probablity with its default block
+        frame = lambda sh, lo, hi: rle_encode(np.pad(np.ones([sh[0] - lo - hi, sh[1] - lo - hi], dtype=bool), ((lo, hi), (lo, hi))))
+        bigs = [([240, 200], [1, 1], "pad", False, rle_encode(np.ones(48000)), [1, 0, 0], "random", "mask:full"),
+                ([262, 271], [1, 1], "inplace", True, frame([262, 271], 2, 3), [1, 0, 0], "random", "mask:rect"),
+                ([381, 364], [2, 1], "pad", True, frame([381, 364], 5, 7), [7, 0, 1000], "random", "mask:rect")]
+        if tier == "thorough":
+            bigs += [([700, 700], [1, 1], "inplace", False, rle_encode(np.ones(490000)), [1, 0, 0], "random", "mask:full"),
+                     ([600, 630], [3, 3], "inplace", True, frame([600, 630], 7, 19), [1, 0, 0], "reverse", "mask:rect"),
+                     ([601, 632], [3, 3], "pad", False, frame([601, 632], 7, 19), [1, 5, 0], "random", "mask:rect"),
+                     ([70001], [1], "inplace", False, rle_encode(np.ones(70001)), [1, 0, 0], "random", "mask:full"),
+                     ([100001], [2], "pad", True, rle_encode(np.ones(100001)), [1, 0, 3], "rotate", "mask:full")]
+        for i, (shape, block, mode, part, runs, form, perm, mk) in enumerate(bigs):
+            yield {"kind": "bigshuffle", "shape": shape, "block": block, "x": form, "mask_runs": runs, "mask_float": False, "mode": mode,
+                   "partial": part, "perm": perm, "pseed": 40 + i, "layout": "C", "gen": [mk]}
+        yield {"kind": "bigprob", "shape": [600, 630], "x": [1, 0, 0], "y": [5, 3, 1000], "mask_runs": frame([600, 630], 7, 19), "block": None,
+               "partial": False, "n": 1, "perm": "random", "pseed": 50, "gen": ["mask:rect"]}
+        if tier == "thorough":
+            yield {"kind": "bigprob", "shape": [561, 640], "x": [3, -7, 0], "y": [13, 0, 4099], "mask_runs": None, "block": None,
+                   "partial": True, "n": 2, "perm": "random", "pseed": 51, "gen": ["mask:none"]}
+        # histories: the same mask object is used again after the caller edited it in place (and the same options), through
+        # shuffle_blocks and through pearsonr_probablity
+        n = 12 * 18
+        for mode in ("inplace", "pad"):
+            for part in (False, True):
+                st = {"fn": "shuffle", "mask": "A", "edit": None, "block": [2, 3], "mode": mode, "partial": part, "perm": "random", "pseed": 60, "img": "fresh"}
+                yield {"kind": "history", "shape": [12, 18], "x": list(range(n)), "y": list(range(n)), "masks": {"A": [1] * n, "B": [1] * n},
+                       "steps": [st, dict(st, edit={"rect": [[0, 6], [0, 18]], "value": 0}, pseed=61),
+                                 dict(st, edit={"rect": [[0, 12], [0, 9]], "value": 0}, pseed=62, img="same")]}
+        for part in (False, True):
+            pr = {"fn": "prob", "mask": "A", "edit": None, "block": 2, "partial": part, "n": 2, "perm": "random", "pseed": 63}
+            sh = {"fn": "shuffle", "mask": "A", "edit": {"rect": [[0, 5], [0, 10]], "value": 0}, "block": [2, 2], "mode": "inplace", "partial": part,
+                  "perm": "random", "pseed": 64, "img": "same"}
+            yield {"kind": "history", "shape": [10, 10], "x": [(7 * i * i) % 23 for i in range(100)], "y": list(range(100)),
+                   "masks": {"A": [1] * 100, "B": [1] * 100}, "steps": [pr, sh]}
+            yield {"kind": "history", "shape": [10, 10], "x": [(7 * i * i) % 23 for i in range(100)], "y": list(range(100)),
+                   "masks": {"A": [1] * 100, "B": [1] * 100}, "steps": [pr, dict(pr, edit={"rect": [[0, 10], [0, 5]], "value": 0}, pseed=65)]}
+            yield {"kind": "history", "shape": [10, 10], "x": [(7 * i * i) % 23 for i in range(100)], "y": list(range(100)),
+                   "masks": {"A": [1] * 100, "B": [1] * 100}, "steps": [dict(sh, edit=None), dict(pr, edit={"rect": [[4, 10], [0, 10]], "value": 0})]}
+
     # ------------------------------------------------------------------ evaluation
     def evaluate(self, case, ctx):
         with warnings.catch_warnings(), np.errstate(all="ignore"):
@@ -407,15 +761,48 @@ class C14(Prop):
             if not extreme:
                 raise core.InternalError("affine image not exact")
             return beyond()
-        snap = [v.copy() for v in (x, y, x2, y2)]
+        # element type and memory layout ("all image pairs"): the same exact values as float32 or integer arrays and as
+        # Fortran-ordered, strided or transposed views.  A type is used only when it holds the values exactly (float32: also the
+        # threshold its image is compared with); otherwise the image stays float64
+        dts = list(case.get("dtype") or ["f8", "f8"])
+
+        def holds(arr, d, thr):
+            t = np.dtype(DT.get(d, np.float64))
+            if t == np.float64:
+                return True
+            if t.kind == "f":
+                c = arr.astype(t)
+                return bool(np.all(np.isfinite(c)) and np.array_equal(c.astype(np.float64), arr) and
+                            (thr is None or float(np.float32(thr)) == thr))
+            info = np.iinfo(t)
+            return bool(np.all(arr == np.rint(arr)) and arr.min() >= info.min and arr.max() <= info.max)
+
+        dts = ["f8" if extreme or not holds(v, d, t) else d for v, d, t in ((x, dts[0], tx), (y, dts[1], ty))]
+        xa, ya = x.astype(DT[dts[0]]), y.astype(DT[dts[1]])
+        negzero = bool(case.get("negzero")) and not extreme
+        if negzero:  # exact zeros as negative zeros (images and thresholds)
+            for v in (xa, ya):
+                if v.dtype.kind == "f":
+                    v[v == 0] = -0.0
+            tx, ty = (-0.0 if tx == 0 else tx), (-0.0 if ty == 0 else ty)
+        lays = list(case.get("lay") or ["C", "C"])
+        xa, ya = with_layout(xa, lays[0]), with_layout(ya, lays[1])
+        if not (np.array_equal(xa.astype(np.float64), x) and np.array_equal(ya.astype(np.float64), y)):
+            raise core.InternalError("typed / laid out image differs from the exact values")
+        f4x, f4y = dts[0] == "f4", dts[1] == "f4"
+        # integer images: `x * y` is formed in the integer type; where a product does not fit, NumPy wraps around silently.
+        # That r is recorded (feature), not judged: see notes/EC14.md (candidate finding)
+        rt = np.result_type(xa.dtype, ya.dtype)
+        wraps = rt.kind in "iu" and any(not (np.iinfo(rt).min <= int(u) * int(v) <= np.iinfo(rt).max) for u, v in zip(x.ravel(), y.ravel()))
+        snap = [v.copy() for v in (xa, ya, x2, y2)]
         try:
-            impl = {"icq": float(colocal.li_icq(x, y)), "r": float(colocal.pearsonr(x, y)), "r_yx": float(colocal.pearsonr(y, x)),
-                    "r_ax": float(colocal.pearsonr(x2, y)), "r_ay": float(colocal.pearsonr(x, y2))}
-            m = colocal.manders(x, y, tx, ty)
+            impl = {"icq": float(colocal.li_icq(xa, ya)), "r": float(colocal.pearsonr(xa, ya)), "r_yx": float(colocal.pearsonr(ya, xa)),
+                    "r_ax": float(colocal.pearsonr(x2, ya)), "r_ay": float(colocal.pearsonr(xa, y2))}
+            m = colocal.manders(xa, ya, tx, ty)
             impl["m1"], impl["m2"] = float(m[0]), float(m[1])
         except Exception as e:
             impl = {"raises": type(e).__name__, "msg": str(e)[:200]}
-        impl["args_unchanged"] = all(np.array_equal(u, v) for u, v in zip((x, y, x2, y2), snap))
+        impl["args_unchanged"] = all(np.array_equal(u, v) and u.dtype == v.dtype for u, v in zip((xa, ya, x2, y2), snap))
         orat = lambda v: None if v is None else core.rat(v)
         rep = ctx.driver.call("c14.coeff", x=[core.rat(v) for v in xq], y=[core.rat(v) for v in yq], tx=orat(txq), ty=orat(tyq))
         if extreme:
@@ -434,11 +821,22 @@ class C14(Prop):
         tol = r_tol(g("mean_xy"), g("mean_x"), g("mean_y"), vx, vy)
         tol_ax = r_tol(af * g("mean_xy") + bfx * g("mean_y"), af * g("mean_x") + bfx, g("mean_y"), af * af * vx, vy)
         tol_ay = r_tol(af * g("mean_xy") + bfy * g("mean_x"), g("mean_x"), af * g("mean_y") + bfy, vx, af * af * vy)
+        if f4x or f4y:
+            # float32 arithmetic inside NumPy: the same bound with the float32 unit roundoff, on the absolute values
+            # (E|xy| + E|x| E|y|): an r that involves a float32 image is compared at this tolerance
+            n_ = len(xq)
+            exy, eax, eay = sum(abs(u * v) for u, v in zip(xq, yq)) / n_, sum(abs(u) for u in xq) / n_, sum(abs(v) for v in yq) / n_
+            t32 = lambda axy, ax_, ay_, wx, wy: REL32 + 64 * EPS32 * (float(axy) + float(ax_) * float(ay_)) / math.sqrt(float(wx) * float(wy))
+            tol = t32(exy, eax, eay, vx, vy)
+            if f4y:
+                tol_ax = t32(af * exy + abs(bfx) * eay, af * eax + abs(bfx), eay, af * af * vx, vy)
+            if f4x:
+                tol_ay = t32(af * exy + abs(bfy) * eax, eax, af * eay + abs(bfy), vx, af * af * vy)
         sums_ok = g("sum_x") != 0 and g("sum_y") != 0
         nonneg = min(xq) >= 0 and min(yq) >= 0
         scale = max(max(abs(v) for v in xq), max(abs(v) for v in yq))
         devs = [unrat(rep[k]) for k in ("min_dev_x", "min_dev_y") if rep[k] is not None]
-        icq_und = any(d < Fraction(1, 10 ** 9) * scale for d in devs)
+        icq_und = any(d < (Fraction(1, 10 ** 4) if f4x or f4y else Fraction(1, 10 ** 9)) * scale for d in devs)
         xs_und = False
         if extreme:
             dx, dy = g("min_dev_x"), g("min_dev_y")  # present: neither image is constant
@@ -458,17 +856,26 @@ class C14(Prop):
             if "raises" in impl or not impl["args_unchanged"]:
                 return False
             ok = core.close(impl["icq"], ref["icq"], rel=0.0, abs_=1e-12)
-            ok = ok and abs(impl["r"] - ref["r"]) <= tol and abs(impl["r_yx"] - ref["r"]) <= tol
+            if not wraps:
+                ok = ok and abs(impl["r"] - ref["r"]) <= tol and abs(impl["r_yx"] - ref["r"]) <= tol
+                ok = ok and all(abs(impl[k]) <= 1 + tol for k in ("r", "r_yx"))
             ok = ok and abs(impl["r_ax"] - ref["r"]) <= tol_ax and abs(impl["r_ay"] - ref["r"]) <= tol_ay
-            ok = ok and all(abs(impl[k]) <= 1 + t for k, t in (("r", tol), ("r_yx", tol), ("r_ax", tol_ax), ("r_ay", tol_ay)))
+            ok = ok and all(abs(impl[k]) <= 1 + t for k, t in (("r_ax", tol_ax), ("r_ay", tol_ay)))
             if sums_ok:
-                ok = ok and core.close(impl["m1"], ref["m1"], rel=REL, abs_=1e-15) and core.close(impl["m2"], ref["m2"], rel=REL, abs_=1e-15)
+                ok = ok and core.close(impl["m1"], ref["m1"], rel=REL32 if f4x else REL, abs_=1e-15)
+                ok = ok and core.close(impl["m2"], ref["m2"], rel=REL32 if f4y else REL, abs_=1e-15)
                 if nonneg:
                     ok = ok and all(-1e-12 <= impl[k] <= 1 + 1e-12 for k in ("m1", "m2"))
             return ok
 
-        if sum(xq) / len(xq) in xq or sum(yq) / len(yq) in yq:
+        mxq, myq = sum(xq) / len(xq), sum(yq) / len(yq)
+        if mxq in xq or myq in yq:
             feats.add("deviation-exactly-zero")
+            zz = {(u == mxq, v == myq) for u, v in zip(xq, yq)}
+            if (True, True) in zz:
+                feats.add("deviation-exactly-zero:both-at-one-pixel")
+            if (True, False) in zz and (False, True) in zz:
+                feats.add("deviation-exactly-zero:in-each-image")
         if case["tx"] is not None or case["ty"] is not None:
             feats.add("explicit-threshold")
         if (tyq is not None and tyq in yq) or (txq is not None and txq in xq):
@@ -479,6 +886,16 @@ class C14(Prop):
             feats.add("zero-sum(no manders)")
         if case["spow"]:
             feats.add("scaled")
+        feats.add("dtype:" + (dts[0] if dts[0] == dts[1] else "mixed(" + "/".join(dts) + ")"))
+        eff = [("C" if (l == "transposed" and len(shape) != 2) or l not in ("F", "strided", "strided0", "transposed") else l) for l in lays]
+        feats.add("coeff-layout:" + ("C" if eff == ["C", "C"] else "/".join(eff)))
+        if eff[0] != eff[1]:
+            feats.add("coeff-layouts-differ")
+        if negzero and ((0 in xq and xa.dtype.kind == "f") or (0 in yq and ya.dtype.kind == "f") or tx == 0 or ty == 0):
+            feats.add("negative-zero")
+        if wraps:
+            feats.add("dtype:integer-product-wraps(r recorded only): r " +
+                      ("as if exact" if "raises" not in impl and abs(impl["r"] - r) <= tol else "DIFFERS"))
         if case["offx"] or case["offy"]:
             feats.add("offset")
         feats.add("r:" + ("+1" if abs(r - 1) < 1e-12 else "-1" if abs(r + 1) < 1e-12 else "0" if cov == 0 else "other"))
@@ -487,159 +904,321 @@ class C14(Prop):
         return outcome(impl, model, spec, spec_ok=cmp(spec), model_ok=cmp(model), undetermined=icq_und or xs_und, features=feats)
 
     # ---- shuffle_blocks
-    def eval_shuffle(self, case, ctx):
-        from pewlib.process import calc
-
-        shape, block = case["shape"], case["block"]
-        nd = len(shape)
-        pad = case["mode"] == "pad"
-        x = with_layout(np.array(case["x"], dtype=np.float64).reshape(shape), case.get("layout", "C"), case.get("layout_perm"))
-        mask = with_layout(np.array(case["mask"], dtype=np.float64 if case["mask_float"] else bool).reshape(shape), case.get("mask_layout", "C"))
-        x0, m0 = x.copy(), mask.copy()
-        # memory layout is part of the input: view_as_blocks copies a working array that is not C-contiguous (np.pad keeps
-        # Fortran order), and then the block assignment is lost; the model derives this (`layoutAliases`) from the two
-        # contiguity flags of the argument
-        cC, fC = bool(x.flags.c_contiguous), bool(x.flags.f_contiguous)
-        rec = PermRecorder(case["pseed"], case["perm"])
+    def observe(self, fn, x, block, mask, mode, partial, rec, defaults=False):
+        """one call of shuffle_blocks with numpy.random.permutation replaced by the recorder; `defaults`: keyword arguments that
+        have their default value (mask None, mode "pad", shuffle_partial False) are left out of the call"""
+        kwargs = None
+        if defaults:
+            kwargs = {k: v for k, v, dflt in (("mask", mask, mask is None), ("mode", mode, mode == "pad"),
+                                              ("shuffle_partial", partial, partial is False)) if not dflt}
         saved = np.random.permutation
         np.random.permutation = rec
         try:
-            try:
-                res = calc.shuffle_blocks(x, tuple(block), mask=mask, mode=case["mode"], shuffle_partial=case["partial"])
-                res = np.asarray(res)
-                impl = {"shape": list(res.shape), "out": [float(v) for v in res.ravel()]}
-            except core.InternalError:
-                raise
-            except Exception as e:
-                impl = {"raises": type(e).__name__, "msg": str(e)[:200]}
+            return ShuffleObs(fn, x, tuple(block), mask, mode, partial, rec, kwargs)
         finally:
             np.random.permutation = saved
-        impl["mask_unchanged"] = bool(mask.dtype == m0.dtype and np.array_equal(mask, m0))
-        impl["mask_after"] = [bool(v) for v in mask.ravel()]
-        if pad:
-            impl["x_unchanged"] = bool(np.array_equal(x, x0))
-        else:  # in-place mode hands back the argument itself: the argument array afterwards is the result
-            impl["x_after"] = [float(v) for v in x.ravel()]
-        good = "raises" not in impl and impl["shape"] == shape
-        nidx = rec.calls[0][1] if len(rec.calls) == 1 else None
-        xr, mr = [core.rat(v) for v in x0.ravel()], [bool(v) for v in m0.ravel()]
-        outr = [core.rat(v) for v in impl["out"]] if good else None
-        # the dimension-generic model (PewModel/ColocalNd.lean), on every case
-        rep = ctx.driver.call("c14.shuffle_nd", shape=shape, block=block, x=xr, mask=mr, pad=pad, partial=case["partial"],
-                              nidx=nidx, c_contig=cC, f_contig=fC, out=outr)
-        idx, aliases = rep["idx"], rep["aliases"]
-        fl = lambda r, k: None if r[k] is None else [float(unrat(v)) for v in r[k]]
-        model = {"shape": shape, "out": fl(rep, "model"), "mask_after": rep["mask_after"],
-                 "mask_unchanged": rep["mask_after"] == mr, "perm_arg": idx}
-        if pad:
-            model["x_unchanged"] = fl(rep, "x_after") in (None, [float(v) for v in x0.ravel()])
-        else:
-            model["x_after"] = fl(rep, "x_after")
-        spec_rel = dict(rep["spec"] or {})
-        if nd <= 2:
-            # the 2-D model (the theorems of the 2-D section are about it; a 1-D array is one row with block height 1) on the
-            # same case: both Lean models must say the same (theorem nd_coincides_2d)
+
+    def judge(self, o, ctx, form=None, other=None, ref=None):
+        """an observed call of shuffle_blocks against the Lean model and the Lean specification relations, for the
+        contents the argument arrays had when the call was made.  Returns impl / model / spec and the two verdicts."""
+        shape, block, nd, pad = o.shape, o.block, len(o.shape), o.mode == "pad"
+        if o.mode not in ("pad", "inplace") or len(block) != nd or any(b < 1 for b in block) or \
+                (o.m0 is not None and list(o.m0.shape) != shape):
+            return None  # not a call the model describes (the harness never makes one; a spied call might)
+        big = o.x0.size > BIG
+        impl = {"shape": None if o.res is None else list(o.res.shape), "mask_unchanged": o.mask_unchanged}
+        if o.exc is not None:
+            impl.update(raises=type(o.exc).__name__, msg=str(o.exc)[:200])
+        good = o.exc is None and impl["shape"] == shape
+        m0 = np.ones(shape, dtype=bool) if o.m0 is None else (o.m0 != 0)
+        one = len(o.perm_calls) == 1
+        impl["n_perm_calls"] = len(o.perm_calls)
+        spec = {"outside_fixed": True, "blocks_from_input": True, "conserved": True, "mask_unchanged": True, "shape": shape}
+        if big and nd > 2:
+            return None
+        if big:
+            xv, ov = int_vals(o.x0), int_vals(o.res) if good else None
+            if xv is None:
+                return None  # the large classes use integer-valued images
+            if good and ov is None:
+                good = False
+                impl["values"] = "not all finite integers (no rearrangement of the input)"
             n0, n1 = (1, shape[0]) if nd == 1 else shape
             b0, b1 = (1, block[0]) if nd == 1 else block
-            rep2 = ctx.driver.call("c14.shuffle", n0=n0, n1=n1, x=xr, mask=mr, b0=b0, b1=b1, pad=pad, partial=case["partial"],
-                                   nidx=nidx, c_contig=cC, f_contig=fC, out=outr)
-            for k in ("idx", "aliases", "model", "x_after", "mask_after"):
-                if rep2[k] != rep[k]:
-                    raise core.InternalError(f"the 2-D and the n-D Lean model differ in {k} (contradicts theorem nd_coincides_2d)")
-            for k, v in (rep2["spec"] or {}).items():
-                spec_rel[k] = spec_rel.get(k) and v  # both specification relations are demanded
-        impl["perm_arg"] = rec.calls[0][0] if len(rec.calls) == 1 else [c[0] for c in rec.calls]
-        spec = {"outside_fixed": True, "blocks_from_input": True, "conserved": True, "mask_unchanged": True, "shape": shape}
+            rep = ctx.driver.call("c14.shuffle_big", n0=n0, n1=n1, b0=b0, b1=b1, pad=pad, partial=o.partial, c_contig=o.cC, f_contig=o.fC,
+                                  reference=False, x={"lin": form} if form is not None else {"vals": xv},
+                                  mask_runs=rle_encode(m0), nidx=[int(v) for v in o.perm_calls[0][1]] if one else None,
+                                  arg_runs=arange_runs(o.perm_calls[0][0]) if one else None,
+                                  out={"vals": ov} if good else None, other=other, ref=ref)
+            same_rng_use = bool(one and rep["arg_is_idx"])
+            if one and not rep["nidx_is_perm"] and same_rng_use:
+                raise core.InternalError("the harness's permutation stand-in did not return a permutation of its argument")
+            spec_rel = dict(rep["spec"] or {})
+            impl.update(out_sha1=None if o.res is None else __import__("hashlib").sha1(np.ascontiguousarray(o.res).tobytes()).hexdigest(),
+                        perm_arg_is_block_index_list=same_rng_use, equals_model_output=rep["applied"],
+                        x_unchanged=o.x_unchanged if pad else None, x_is_result=None if pad else o.x_is_result)
+            model = {"shape": shape, "mask_unchanged": True, "perm_arg_is_block_index_list": True, "equals_model_output": True,
+                     "x_unchanged": True if pad else None, "x_is_result": None if pad else True, "n_perm_calls": 1}
+            keys = list(model) if same_rng_use else ["shape", "mask_unchanged", "x_unchanged"]
+            n_sel, aliases = rep["n_selected"], rep["aliases"]
+            moved = bool(one and same_rng_use and aliases and not rep["nidx_is_idx"])
+        else:
+            xr, mr = [core.rat(float(v)) for v in o.x0.ravel()], [bool(v) for v in m0.ravel()]
+            if good:
+                impl["out"] = [float(v) for v in o.res.ravel()]
+                if not np.all(np.isfinite(o.res)):
+                    good = False
+            impl["mask_after"] = mr if o.mask_after is None else [bool(v) for v in o.mask_after.ravel()]
+            if pad:
+                impl["x_unchanged"] = o.x_unchanged
+            else:  # in-place mode hands back the argument itself: the argument array afterwards is the result
+                impl["x_after"] = [float(v) for v in o.x_after.ravel()]
+            nidx = [int(v) for v in o.perm_calls[0][1]] if one else None
+            outr = [core.rat(v) for v in impl["out"]] if good else None
+            # the dimension-generic model (PewModel/ColocalNd.lean), on every case
+            rep = ctx.driver.call("c14.shuffle_nd", shape=shape, block=block, x=xr, mask=mr, pad=pad, partial=o.partial,
+                                  nidx=nidx, c_contig=o.cC, f_contig=o.fC, out=outr)
+            idx, aliases = rep["idx"], rep["aliases"]
+            fl = lambda r, k: None if r[k] is None else [float(unrat(v)) for v in r[k]]
+            model = {"shape": shape, "out": fl(rep, "model"), "mask_after": rep["mask_after"],
+                     "mask_unchanged": rep["mask_after"] == mr, "perm_arg": idx}
+            if pad:
+                model["x_unchanged"] = fl(rep, "x_after") in (None, [float(v) for v in o.x0.ravel()])
+            else:
+                model["x_after"] = fl(rep, "x_after")
+            spec_rel = dict(rep["spec"] or {})
+            if nd <= 2:
+                # the 2-D model (the theorems of the 2-D section are about it; a 1-D array is one row with block height 1) on the
+                # same case: both Lean models must say the same (theorem nd_coincides_2d)
+                n0, n1 = (1, shape[0]) if nd == 1 else shape
+                b0, b1 = (1, block[0]) if nd == 1 else block
+                rep2 = ctx.driver.call("c14.shuffle", n0=n0, n1=n1, x=xr, mask=mr, b0=b0, b1=b1, pad=pad, partial=o.partial,
+                                       nidx=nidx, c_contig=o.cC, f_contig=o.fC, out=outr)
+                for k in ("idx", "aliases", "model", "x_after", "mask_after"):
+                    if rep2[k] != rep[k]:
+                        raise core.InternalError(f"the 2-D and the n-D Lean model differ in {k} (contradicts theorem nd_coincides_2d)")
+                for k, v in (rep2["spec"] or {}).items():
+                    spec_rel[k] = (spec_rel[k] and v) if k in spec_rel else v  # both specification relations are demanded
+                spec["blocks_permuted"] = True  # the selected blocks as a multiset of whole blocks (2-D model, theorem model_block_multiset)
+                # the quasi-linear forms used for large images, on the same case: the same verdicts (theorems spec_outside_fast,
+                # spec_blocks_fast), and the certificate says "equal to the model's output" exactly when it is
+                rep3 = ctx.driver.call("c14.shuffle_big", n0=n0, n1=n1, b0=b0, b1=b1, pad=pad, partial=o.partial, c_contig=o.cC,
+                                       f_contig=o.fC, reference=True, x={"vals": xr}, mask_runs=rle_encode(m0), nidx=nidx,
+                                       arg_runs=arange_runs(idx), out={"vals": outr} if good else None, other=None, ref=None)
+                if rep3["n_selected"] != len(idx) or not rep3["arg_is_idx"]:
+                    raise core.InternalError("c14.shuffle_big selects other blocks than c14.shuffle")
+                if good:
+                    for k in ("outside_fixed", "blocks_from_input"):
+                        if not (rep3["spec"][k] == rep3["reference"][k] == rep2["spec"][k]):
+                            raise core.InternalError(f"quasi-linear form of {k} differs from the reference form (contradicts theorem spec_*_fast)")
+                    if rep3["spec"]["conserved"] != rep2["spec"]["conserved"]:
+                        raise core.InternalError("c14.shuffle_big: conserved differs")
+                    if nidx is not None and len(nidx) == len(idx) and rep3["applied"] != (outr == rep["model"]):
+                        raise core.InternalError("certificate specApplied disagrees with equality to the model output "
+                                                 "(contradicts theorem applied_determines_output)")
+            impl["perm_arg"] = [int(v) for v in o.perm_calls[0][0]] if one else [[int(v) for v in c[0]] for c in o.perm_calls]
+            same_rng_use = impl["perm_arg"] == idx
+            keys = list(model) if same_rng_use else [k for k in model if k not in ("out", "perm_arg", "x_after")]
+            n_sel = len(idx)
+            moved = nidx is not None and nidx != idx and aliases
         impl_spec = dict(spec_rel, mask_unchanged=impl["mask_unchanged"], shape=impl.get("shape"))
         spec_ok = good and all(impl_spec.get(k) == v for k, v in spec.items())
-        model_ok = good and core.canon({k: impl.get(k) for k in model}) == core.canon(model)
-        same_rng_use = impl["perm_arg"] == idx
-        if good and not same_rng_use:
-            # the implementation draws its randomness differently (e.g. permutation(k) of positions instead of the flat
-            # block indices): the recorded array cannot be interpreted by the model, so only the parts of the model
-            # that do not depend on it are compared; the specification relation (Lean, on the implementation's own
-            # output) is still demanded in full
-            keys = [k for k in model if k not in ("out", "perm_arg", "x_after")]
-            model_ok = core.canon({k: impl.get(k) for k in keys}) == core.canon({k: model[k] for k in keys})
+        # when the implementation draws its randomness differently (e.g. permutation(k) of positions instead of the flat
+        # block indices) the recorded array cannot be interpreted by the model, so only the parts of the model that do not
+        # depend on it are compared (`keys`); the specification relation (Lean, on the implementation's own output) is
+        # still demanded in full
+        model_ok = good and core.canon({k: impl.get(k) for k in keys}) == core.canon({k: model[k] for k in keys})
         impl["spec_verdicts"] = spec_rel
+        return {"impl": impl, "model": model, "spec": spec, "spec_ok": bool(spec_ok), "model_ok": bool(model_ok), "n_selected": n_sel,
+                "aliases": aliases, "moved": bool(moved), "same_rng_use": bool(same_rng_use) or not good, "good": good, "rep": rep if big else None}
+
+    def shuffle_features(self, case, j, shape, block):
+        nd = len(shape)
         feats = {"shuffle", f"ndim{nd}", "mode:" + case["mode"], "partial:" + str(case["partial"]), "perm:" + case["perm"],
-                 "maskdtype:" + ("float" if case["mask_float"] else "bool")} | set(case.get("gen", []))
-        feats.add("selected:" + (str(len(idx)) if len(idx) < 3 else "3+"))
+                 "maskdtype:" + ("none" if case.get("mask", 1) is None else "float" if case.get("mask_float") else "bool")} | set(case.get("gen", []))
+        feats.add("selected:" + (str(j["n_selected"]) if j["n_selected"] < 3 else "3+"))
         lay = case.get("layout", "C")
         lay_eff = "C" if (lay == "transposed" and nd != 2) or (lay == "perm" and sorted(case.get("layout_perm") or []) != list(range(nd))) else lay
-        feats.add("layout:" + lay_eff + ("" if aliases else "(block view is a copy: result unshuffled)"))
+        feats.add("layout:" + lay_eff + ("" if j["aliases"] else "(block view is a copy: result unshuffled)"))
         mult = [s % b == 0 for s, b in zip(shape, block)]
         feats.add("shape:" + ("multiple" if all(mult) else "non-multiple"))
         if any(s < b for s, b in zip(shape, block)):
             feats.add("shape<block")
         if any(b == 1 for b in block):
             feats.add("block1")
-        if good and not same_rng_use:
+        if not j["same_rng_use"]:
             feats.add("rng-used-differently(model output not compared)")
-        moved = nidx is not None and nidx != idx and aliases
-        if moved:
+        if j["moved"]:
             feats.add("moved")
+        return feats, mult
+
+    def eval_shuffle(self, case, ctx):
+        from pewlib.process import calc
+
+        shape, block = case["shape"], case["block"]
+        nd = len(shape)
+        x = np.array(case["x"], dtype=np.float64).reshape(shape)
+        xd = DT.get(case.get("xdtype", "f8"), np.float64)  # the element type of the image does not matter to a shuffle
+        if xd is not np.float64 and np.array_equal(x.astype(xd).astype(np.float64), x):
+            x = x.astype(xd)
+        x = with_layout(x, case.get("layout", "C"), case.get("layout_perm"))
+        mask = None if case["mask"] is None else \
+            with_layout(np.array(case["mask"], dtype=np.float64 if case["mask_float"] else bool).reshape(shape), case.get("mask_layout", "C"))
+        # memory layout is part of the input: view_as_blocks copies a working array that is not C-contiguous (np.pad keeps
+        # Fortran order), and then the block assignment is lost; the model derives this (`layoutAliases`) from the two
+        # contiguity flags of the argument
+        o = self.observe(calc.shuffle_blocks, x, block, mask, case["mode"], case["partial"], PermRecorder(case["pseed"], case["perm"]),
+                         defaults=bool(case.get("defaults")))
+        j = self.judge(o, ctx)
+        if j is None:
+            raise core.InternalError("shuffle case outside the model's domain")
+        feats, mult = self.shuffle_features(case, j, shape, block)
+        if x.dtype != np.float64:
+            feats.add("image-dtype:" + x.dtype.name)
+        if case.get("defaults"):
+            feats.add("call:default-arguments-left-out")
         if nd >= 3:  # the classes again for arrays beyond 2-D
             feats |= {f"ndim{nd}:" + f for f in feats if f.split(":")[0] in ("mode", "partial", "layout", "shape", "shape<block", "moved")
                       or f.startswith("mask:")}
-        nontrivial = moved or not all(mult) or case.get("gen", [""])[0] not in ("mask:full",)
-        return outcome(impl, model, spec, spec_ok=spec_ok, model_ok=model_ok, features=feats if nontrivial else [])
+        nontrivial = j["moved"] or not all(mult) or case.get("gen", [""])[0] not in ("mask:full",)
+        return outcome(j["impl"], j["model"], j["spec"], spec_ok=j["spec_ok"], model_ok=j["model_ok"], features=feats if nontrivial else [])
+
+    # ---- shuffle_blocks on images of ordinary size (10^4 .. 10^6 blocks in one call)
+    def eval_bigshuffle(self, case, ctx):
+        from pewlib.process import calc
+
+        shape, block = case["shape"], case["block"]
+        n = int(np.prod(shape))
+        x = lin_image(case["x"], shape)
+        m = rle_decode(case["mask_runs"], n).reshape(shape)
+        mask = m.astype(np.float64) if case.get("mask_float") else m
+        if case.get("layout", "C") == "F":
+            x = np.asfortranarray(x)
+        o = self.observe(calc.shuffle_blocks, x, block, mask, case["mode"], case["partial"], BigPermRecorder(case["pseed"], case["perm"]))
+        j = self.judge(o, ctx, form=case["x"])
+        if j is None:
+            raise core.InternalError("large shuffle case outside the model's domain")
+        feats, mult = self.shuffle_features(case, j, shape, block)
+        feats = {"big:" + f for f in feats if f != "shuffle" and not f.startswith("selected:")} | {"big", "shuffle"}
+        ns = j["n_selected"]
+        feats.add("big:blocks-moved-in-one-call:" + ("<=2^15" if ns <= 2 ** 15 else "2^15..2^16" if ns <= 2 ** 16 else ">2^16"))
+        feats.add("big:values:" + ("distinct" if case["x"][2] == 0 and case["x"][0] != 0 else "repeated"))
+        return outcome(j["impl"], j["model"], j["spec"], spec_ok=j["spec_ok"], model_ok=j["model_ok"], features=feats)
 
     # ---- pearsonr_probablity
     def eval_prob(self, case, ctx):
-        from pewlib.process import colocal
-
-        shape, n = case["shape"], case["n"]
+        shape = case["shape"]
         x = to_arr(values(case["x"], case["den"], 0, 0), shape)
         y = to_arr(values(case["y"], case["den"], 0, 0), shape)
         mask = None if case["mask"] is None else np.array(case["mask"], dtype=bool).reshape(shape)
         x, y = with_layout(x, case.get("layout", "C")), with_layout(y, case.get("layout", "C"))  # y.copy() is C-ordered again
         if mask is not None:
             mask = with_layout(mask, case.get("mask_layout", "C"))
+        feats = {"prob", "partial:" + str(case["partial"]), f"n{case['n']}", "block:default" if case["block"] is None else f"block{case['block']}"} | \
+            set(case.get("gen", []))
+        if case["mask"] is None:
+            feats.add("mask:none")
+        if case.get("defaults"):
+            feats.add("call:default-arguments-left-out")
+        j = self.judge_prob(ctx, x, y, mask, case["block"], case["partial"], case["n"], PermRecorder(case["pseed"], case["perm"]), feats,
+                            defaults=bool(case.get("defaults")))
+        return outcome(j["impl"], j["model"], j["spec"], spec_ok=j["spec_ok"], model_ok=j["model_ok"], undetermined=j["undetermined"],
+                       hyp=j["hyp"], features=j["features"])
+
+    def judge_inner(self, spy, ctx, given_mask, y0, n, **kw):
+        """the calls pearsonr_probablity made to shuffle_blocks (each an observation point of its own): every one against
+        the shuffle specification, for the array contents at the time of that call; how they hang together; and - "obtained
+        over the same pixels as the reported r" - that no call moves a pixel outside the blocks selected by the mask the
+        routine was GIVEN (a call that is handed another mask, e.g. a stale copy, is judged against the given one as well)"""
+        import copy
+
+        js = [self.judge(o, ctx, **kw) for o in spy.obs]
+        judged = [j for j in js if j is not None]
+        ones = np.ones(y0.shape, dtype=bool) if given_mask is None else (given_mask != 0)
+        chain = len(spy.obs) == n and len(judged) == n
+        prev, inside = y0, True
+        for o, j in zip(spy.obs, js):
+            same_mask = o.m0 is not None and o.m0.shape == ones.shape and bool(np.array_equal(o.m0 != 0, ones))
+            chain = chain and o.res is not None and o.x0.shape == prev.shape and bool(np.array_equal(o.x0, prev)) and same_mask
+            prev = o.res
+            if j is not None and j["good"] and not same_mask and list(ones.shape) == o.shape:
+                o2 = copy.copy(o)
+                o2.m0 = ones
+                j2 = self.judge(o2, ctx)
+                inside = inside and (j2 is None or bool(j2["impl"]["spec_verdicts"].get("outside_fixed")))
+        return {"judged": judged, "spec_ok": all(j["spec_ok"] for j in judged) and inside, "model_ok": all(j["model_ok"] for j in judged),
+                "chain": bool(chain), "inside_given_mask": inside,
+                "first_bad": next((j["impl"] for j in judged if not j["spec_ok"]), None if inside else "a shuffle moved pixels outside the blocks "
+                                  "selected by the mask given to pearsonr_probablity")}
+
+    def judge_prob(self, ctx, x, y, mask, block, partial, n, rec, feats, defaults=False):
+        """one call of pearsonr_probablity on the given array objects, against the Lean model and specification"""
+        from pewlib.process import colocal
+
+        shape = list(x.shape)
+        feats = set(feats)
         x0, y0, m0 = x.copy(), y.copy(), None if mask is None else mask.copy()
-        rec = PermRecorder(case["pseed"], case["perm"])
+        # `block is None`: the routine's own default block (which value that is, is not the property's business: it is read
+        # from the signature and is part of the input); `defaults`: keyword arguments with their default value are left out
+        kwargs = {k: v for k, v, d in (("block", block, None), ("mask", mask, None), ("shuffle_partial", partial, False))
+                  if not ((defaults or k == "block") and v is d)}
+        kwargs["n"] = n
+        if block is None:
+            import inspect
+
+            block = inspect.signature(colocal.pearsonr_probablity).parameters["block"].default
+            if not isinstance(block, int) or block < 1:
+                raise core.InternalError("pearsonr_probablity has no usable default block")
         saved = np.random.permutation
         np.random.permutation = rec
         try:
-            try:
-                r, p = colocal.pearsonr_probablity(x, y, block=case["block"], mask=mask, shuffle_partial=case["partial"], n=n)
-                impl = {"r": float(r), "p": None if math.isnan(float(p)) else float(p)}  # NaN = None, as in the driver protocol
-            except core.InternalError:
-                raise
-            except Exception as e:
-                impl = {"raises": type(e).__name__, "msg": str(e)[:200]}
+            with ShuffleSpy(colocal, rec) as spy:
+                try:
+                    r, p = colocal.pearsonr_probablity(x, y, **kwargs)
+                    impl = {"r": float(r), "p": None if math.isnan(float(p)) else float(p)}  # NaN = None, as in the driver protocol
+                except core.InternalError:
+                    raise
+                except Exception as e:
+                    impl = {"raises": type(e).__name__, "msg": str(e)[:200]}
         finally:
             np.random.permutation = saved
         impl["images_unchanged"] = bool(np.array_equal(x, x0) and np.array_equal(y, y0))
         impl["mask_unchanged"] = True if mask is None else bool(np.array_equal(mask, m0))
+        res = lambda impl_, model, spec, spec_ok, model_ok, undetermined=False, hyp=True, features=(): {
+            "impl": impl_, "model": model, "spec": spec, "spec_ok": bool(spec_ok), "model_ok": bool(model_ok),
+            "undetermined": bool(undetermined), "hyp": bool(hyp), "features": set(features)}
         if len(shape) != 2:
             # the routine takes ONE block size and hands (block, block) to shuffle_blocks: its domain is 2-D images.  Outside it
             # nothing of the property is demanded; that it raises is compared with the model (probRaises) when it does
             rep = ctx.driver.call("c14.prob_domain", shape=shape, n=n)
             raised = "raises" in impl
-            return outcome({"raises": raised, "images_unchanged": impl["images_unchanged"], "mask_unchanged": impl["mask_unchanged"]},
-                           {"raises": rep["raises"]}, None, spec_ok=True, model_ok=(not raised) or rep["raises"], hyp=False,
-                           features=["prob:not-2-D(" + ("raises, as modelled" if raised else "accepted") + ")"])
+            return res({"raises": raised, "images_unchanged": impl["images_unchanged"], "mask_unchanged": impl["mask_unchanged"]},
+                       {"raises": rep["raises"]}, None, True, (not raised) or rep["raises"], hyp=False,
+                       features=["prob:not-2-D(" + ("raises, as modelled" if raised else "accepted") + ")"])
         mlist = [True] * (shape[0] * shape[1]) if m0 is None else [bool(v) for v in m0.ravel()]
         sig_ok = len(rec.calls) == n
         rep = ctx.driver.call("c14.prob", n0=shape[0], n1=shape[1], x=[core.rat(v) for v in x0.ravel()],
-                              y=[core.rat(v) for v in y0.ravel()], mask=mlist, block=case["block"], partial=case["partial"],
+                              y=[core.rat(v) for v in y0.ravel()], mask=mlist, block=block, partial=partial,
                               y_c_contig=bool(y.flags.c_contiguous), y_f_contig=bool(y.flags.f_contiguous),
                               sigmas=[c[1] for c in rec.calls] if sig_ok else [])
         g = lambda k: unrat(rep[k])
         vx, vy, cov = g("var_x"), g("var_y"), g("cov")
-        feats = {"prob", "partial:" + str(case["partial"]), f"n{n}", f"block{case['block']}"} | set(case.get("gen", []))
-        if case["mask"] is None:
-            feats.add("mask:none")
         if vx == 0 or vy == 0 or rep["n_masked"] < 2:
-            return outcome(impl, None, None, spec_ok=True, model_ok=True, hyp=False, features=[])
+            return res(impl, None, None, True, True, hyp=False)
+        # the calls of shuffle_blocks the routine made, each judged as a shuffle of its own
+        inner = self.judge_inner(spy, ctx, m0, y0, n)
+        if inner["judged"]:
+            feats.add("prob:inner-shuffle-calls-judged")
+        impl["inner_shuffles_satisfy_spec"] = inner["spec_ok"]
+        if not inner["spec_ok"]:
+            impl["inner_shuffle_violating"] = inner["first_bad"]
         r = r_exact(cov, vx, vy)
         tol = r_tol(g("mean_xy"), g("mean_x"), g("mean_y"), vx, vy)
         bound = float(np.abs(x0).max() * np.abs(y0).max())
         sure = near = 0
-        for s in rep["steps"] if sig_ok else []:
-            vyi, ci = unrat(s["var_y"]), unrat(s["cov"])
-            if s["same"]:  # identical operands: r_i is r bit for bit, never counted by rs > r
+        for st in rep["steps"] if sig_ok else []:
+            vyi, ci = unrat(st["var_y"]), unrat(st["cov"])
+            if st["same"]:  # identical operands: r_i is r bit for bit, never counted by rs > r
                 continue
             if vyi == 0:
                 near += 1
@@ -648,7 +1227,7 @@ class C14(Prop):
             toli = REL + 64 * EPS * 2 * bound / math.sqrt(float(vx) * float(vyi))
             if abs(ri - r) <= tol + toli:
                 near += 1
-            elif s["gt"]:
+            elif st["gt"]:
                 sure += 1
         same_idx = sig_ok and all(c[0] == rep["idx"] for c in rec.calls)
         # the property fixes r, "a fraction in [0, 1]" of the n shuffles and the untouched arguments; which side of r is
@@ -656,7 +1235,7 @@ class C14(Prop):
         # the model's loop state after the run (Lean: probRun, the mask copied inside every call, shuffled = y.copy())
         model = {"r": r, "p_count_in": [sure, sure + near], "perm_args_equal_idx": True, "n_perm_calls": n,
                  "images_unchanged": rep["y_unchanged"], "mask_unchanged": rep["mask_unchanged"], "p_is_nan": rep["p"] is None and sig_ok}
-        if sig_ok and any(s["n"] != rep["n_masked"] for s in rep["steps"]):
+        if sig_ok and any(st["n"] != rep["n_masked"] for st in rep["steps"]):
             raise core.InternalError("model: a round reads another number of pixels than r (contradicts theorem same_pixels)")
         if n == 0:
             # zero shuffles: (rs > r).sum() / 0 is NaN.  "A fraction in [0, 1]" of no shuffles is not defined, so this part of
@@ -666,16 +1245,16 @@ class C14(Prop):
             ok = "raises" not in impl and impl["images_unchanged"] and impl["mask_unchanged"] and abs(impl["r"] - r) <= tol
             impl["n_perm_calls"], impl["p_is_nan"] = len(rec.calls), "raises" not in impl and impl["p"] is None
             agrees = impl["p_is_nan"] and sig_ok
-            return outcome(impl, model, spec, spec_ok=ok, model_ok=ok and model["p_is_nan"] and (agrees or not JUDGE_OUTSIDE_PROPERTY),
-                           hyp=False, features=feats | {"n0(fraction clause not applicable): p is NaN, " +
-                                                        ("as modelled" if agrees else "DIFFERS(recorded only)")})
-        spec = {"r": r, "p_is_fraction_of_n_in_[0,1]": True, "images_unchanged": True, "mask_unchanged": True}
+            return res(impl, model, spec, ok, ok and model["p_is_nan"] and (agrees or not JUDGE_OUTSIDE_PROPERTY), hyp=False,
+                       features=feats | {"n0(fraction clause not applicable): p is NaN, " + ("as modelled" if agrees else "DIFFERS(recorded only)")})
+        spec = {"r": r, "p_is_fraction_of_n_in_[0,1]": True, "images_unchanged": True, "mask_unchanged": True,
+                "inner_shuffles_satisfy_spec": True}
         ok = "raises" not in impl and impl["images_unchanged"] and impl["mask_unchanged"] and impl["p"] is not None
         if ok:
             k = impl["p"] * n
             ok = abs(impl["r"] - r) <= tol and 0.0 <= impl["p"] <= 1.0 and abs(k - round(k)) < 1e-9
-        spec_ok = ok
-        model_ok = (ok and sig_ok and same_idx and sure <= round(impl["p"] * n) <= sure + near
+        spec_ok = ok and inner["spec_ok"]
+        model_ok = (ok and sig_ok and same_idx and sure <= round(impl["p"] * n) <= sure + near and inner["model_ok"]
                     and model["images_unchanged"] and model["mask_unchanged"] and not model["p_is_nan"])
         if ok and not same_idx:
             # the implementation draws its randomness differently: the recorded permutations cannot be replayed by the
@@ -689,25 +1268,161 @@ class C14(Prop):
             feats.add("selected>=2")
         if any(c[0] != c[1] for c in rec.calls):
             feats.add("moved")
-        if any(s % case["block"] for s in shape):
+        if any(sz % block for sz in shape):
             feats.add("shape:non-multiple")
         if near:
             feats.add("near-tie-r")
-        return outcome(impl, model, spec, spec_ok=spec_ok, model_ok=model_ok, undetermined=bool(near) and spec_ok and model_ok,
-                       features=feats)
+        return res(impl, model, spec, spec_ok, model_ok, undetermined=bool(near) and spec_ok and model_ok, features=feats)
+
+    # ---- pearsonr_probablity on images of ordinary size: its calls of shuffle_blocks move 10^4 .. 10^5 blocks each
+    def eval_bigprob(self, case, ctx):
+        from pewlib.process import colocal
+
+        shape, n = case["shape"], case["n"]
+        N = int(np.prod(shape))
+        x, y = lin_image(case["x"], shape), lin_image(case["y"], shape)
+        mask = None if case["mask_runs"] is None else rle_decode(case["mask_runs"], N).reshape(shape)
+        x0, y0, m0 = x.copy(), y.copy(), None if mask is None else mask.copy()
+        rec = BigPermRecorder(case["pseed"], case["perm"])
+        kwargs = dict(mask=mask, shuffle_partial=case["partial"], n=n)
+        if case["block"] is not None:  # None: the routine's own default
+            kwargs["block"] = case["block"]
+        saved = np.random.permutation
+        np.random.permutation = rec
+        try:
+            with ShuffleSpy(colocal, rec) as spy:
+                try:
+                    r, p = colocal.pearsonr_probablity(x, y, **kwargs)
+                    impl = {"r": float(r), "p": None if math.isnan(float(p)) else float(p)}
+                except core.InternalError:
+                    raise
+                except Exception as e:
+                    impl = {"raises": type(e).__name__, "msg": str(e)[:200]}
+        finally:
+            np.random.permutation = saved
+        impl["images_unchanged"] = bool(np.array_equal(x, x0) and np.array_equal(y, y0))
+        impl["mask_unchanged"] = True if mask is None else bool(np.array_equal(mask, m0))
+        feats = {"big", "big:prob", "big:prob:partial:" + str(case["partial"]), f"big:prob:n{n}",
+                 "big:prob:block:" + ("default" if case["block"] is None else str(case["block"])),
+                 "big:prob:mask:" + ("none" if mask is None else "given")} | {"big:prob:" + f for f in case.get("gen", [])}
+        inner = self.judge_inner(spy, ctx, m0, y0, n, other={"lin": case["x"]}, ref={"lin": case["y"]})
+        reps = [j["rep"] for j in inner["judged"]]
+        if reps:
+            st = reps[0]["stats_ref"]
+            ns = max(j["n_selected"] for j in inner["judged"])
+            feats.add("big:prob:inner-shuffle-calls-judged")
+            feats.add("big:blocks-moved-in-one-call:" + ("<=2^15" if ns <= 2 ** 15 else "2^15..2^16" if ns <= 2 ** 16 else ">2^16"))
+        else:  # the routine did not go through shuffle_blocks: only r, the fraction and the untouched arguments can be judged
+            ones = np.ones(shape, dtype=bool) if m0 is None else m0
+            st = ctx.driver.call("c14.shuffle_big", n0=shape[0], n1=shape[1], b0=1, b1=1, pad=False, partial=False, c_contig=True,
+                                 f_contig=False, reference=False, x={"lin": case["y"]}, mask_runs=rle_encode(ones), nidx=None,
+                                 arg_runs=None, out=None, other={"lin": case["x"]}, ref={"lin": case["y"]})["stats_ref"]
+        g = lambda d, k: unrat(d[k])
+        vx, vy, cov = g(st, "var_x"), g(st, "var_y"), g(st, "cov")
+        if vx == 0 or vy == 0 or st["n"] < 2:
+            return outcome(impl, None, None, spec_ok=True, model_ok=True, hyp=False, features=[])
+        r = r_exact(cov, vx, vy)
+        tol = r_tol(g(st, "mean_xy"), g(st, "mean_x"), g(st, "mean_y"), vx, vy)
+        bound = float(np.abs(x0).max() * np.abs(y0).max())
+        sure = near = 0
+        for rp in reps if inner["chain"] else []:
+            so = rp.get("stats_out")
+            if so is None or rp["out_same_as_ref"]:
+                continue
+            vyi, ci = g(so, "var_y"), g(so, "cov")
+            if vyi == 0:
+                near += 1
+                continue
+            ri = r_exact(ci, vx, vyi)
+            toli = REL + 64 * EPS * 2 * bound / math.sqrt(float(vx) * float(vyi))
+            if abs(ri - r) <= tol + toli:
+                near += 1
+            elif rp["out_gt_ref"]:
+                sure += 1
+        impl["inner_shuffles_satisfy_spec"] = inner["spec_ok"]
+        if not inner["spec_ok"]:
+            impl["inner_shuffle_violating"] = inner["first_bad"]
+        spec = {"r": r, "p_is_fraction_of_n_in_[0,1]": True, "images_unchanged": True, "mask_unchanged": True,
+                "inner_shuffles_satisfy_spec": True}
+        model = {"r": r, "p_count_in": [sure, sure + near] if inner["chain"] else None, "images_unchanged": True, "mask_unchanged": True,
+                 "inner_shuffles_equal_model": True}
+        ok = "raises" not in impl and impl["images_unchanged"] and impl["mask_unchanged"] and impl["p"] is not None and n >= 1
+        if ok:
+            k = impl["p"] * n
+            ok = abs(impl["r"] - r) <= tol and 0.0 <= impl["p"] <= 1.0 and abs(k - round(k)) < 1e-9
+        spec_ok = ok and inner["spec_ok"]
+        model_ok = ok and inner["model_ok"] and (not inner["chain"] or sure <= round(impl["p"] * n) <= sure + near)
+        impl["inner_shuffles_equal_model"] = inner["model_ok"]
+        if near:
+            feats.add("big:prob:near-tie-r")
+        return outcome(impl, model, spec, spec_ok=spec_ok, model_ok=model_ok, undetermined=bool(near) and spec_ok and model_ok, features=feats)
+
+    # ---- histories: consecutive calls in one process that share argument objects
+    def eval_history(self, case, ctx):
+        from pewlib.process import calc
+
+        shape = case["shape"]
+        x = np.array(case["x"], dtype=np.float64).reshape(shape)
+        y = np.array(case["y"], dtype=np.float64).reshape(shape)
+        x_first = x.copy()
+        masks = {k: np.array(v, dtype=bool).reshape(shape) for k, v in case["masks"].items()}
+        impls, models, specs, feats = [], [], [], {"history", f"history:steps{len(case['steps'])}"}
+        spec_ok = model_ok = True
+        prev = None
+        for k, st in enumerate(case["steps"]):
+            m = None if st["mask"] is None else masks[st["mask"]]
+            ed = st.get("edit")
+            if ed is not None and m is not None:  # the caller edits the mask object in place between the calls
+                if "rect" in ed:
+                    m[tuple(slice(lo, hi) for lo, hi in ed["rect"])] = bool(ed["value"])
+                for f in ed.get("flip", []):
+                    m.flat[f % m.size] = not m.flat[f % m.size]
+            opts = (st["fn"], tuple(st["block"]) if st["fn"] == "shuffle" else (st["block"], st["block"]),
+                    st.get("mode", "inplace"), st["partial"])
+            if st["fn"] == "shuffle":
+                img = x if st.get("img", "same") == "same" else x_first.copy()
+                o = self.observe(calc.shuffle_blocks, img, st["block"], m if m is not None else np.ones(shape, dtype=bool), st["mode"],
+                                 st["partial"], PermRecorder(st["pseed"], st["perm"]))
+                j = self.judge(o, ctx)
+                if j is None:
+                    raise core.InternalError("history: shuffle step outside the model's domain")
+                if j["moved"]:
+                    feats.add("history:moved")
+            else:
+                j = self.judge_prob(ctx, x, y, m, st["block"], st["partial"], st["n"], PermRecorder(st["pseed"], st["perm"]), set())
+                if j["undetermined"] or not j["hyp"]:  # this step is not judged; the others are
+                    j = dict(j, spec_ok=True, model_ok=True)
+                    feats.add("history:step-not-judged(near tie / outside the hypotheses)")
+            impls.append(j["impl"]), models.append(j["model"]), specs.append(j["spec"])
+            spec_ok, model_ok = spec_ok and j["spec_ok"], model_ok and j["model_ok"]
+            if prev is not None:
+                same_obj = st["mask"] is not None and st["mask"] == prev["mask"]
+                same_opts = opts[1:] == prev["opts"][1:]
+                feats.add("history:" + prev["opts"][0] + ">" + st["fn"])
+                feats.add("history:mask:" + ("none" if st["mask"] is None or prev["mask"] is None else
+                                             ("same-object-" + ("edited" if ed else "unchanged")) if same_obj else
+                                             "other-object-" + ("equal-content" if np.array_equal(masks[st["mask"]], masks[prev["mask"]]) else "other-content")))
+                feats.add("history:options:" + ("same" if same_opts else "changed"))
+                if same_obj and ed and same_opts:
+                    feats.add("history:same-mask-object-edited-in-place+same-options")
+                if st["fn"] == "shuffle" and prev["opts"][0] == "shuffle":
+                    feats.add("history:image:" + st.get("img", "same") + "-object")
+            prev = {"mask": st["mask"], "opts": opts}
+        return outcome({"steps": impls}, {"steps": models}, {"steps": specs}, spec_ok=spec_ok, model_ok=model_ok, features=feats)
 
     # ------------------------------------------------------------------ shrinking
     def shrink(self, case):
         if case["kind"] == "shuffle":
             shape, block = case["shape"], case["block"]
             arr = np.array(case["x"], dtype=object).reshape(shape)
-            msk = np.array(case["mask"], dtype=object).reshape(shape)
+            msk = None if case["mask"] is None else np.array(case["mask"], dtype=object).reshape(shape)
             for ax in range(len(shape)):
                 if shape[ax] > 1:
                     s = [slice(None)] * len(shape)
                     s[ax] = slice(0, shape[ax] - 1)
-                    sub, subm = arr[tuple(s)], msk[tuple(s)]
-                    yield {**case, "shape": list(sub.shape), "x": [int(v) for v in sub.ravel()], "mask": [int(v) for v in subm.ravel()]}
+                    sub = arr[tuple(s)]
+                    yield {**case, "shape": list(sub.shape), "x": [int(v) for v in sub.ravel()],
+                           "mask": None if msk is None else [int(v) for v in msk[tuple(s)].ravel()]}
             for ax in range(len(shape)):
                 if shape[ax] == 1 and len(shape) > 1:  # drop an axis of extent one (the layout is reset: it names axes)
                     yield {**case, "shape": shape[:ax] + shape[ax + 1:], "block": block[:ax] + block[ax + 1:],
@@ -721,8 +1436,42 @@ class C14(Prop):
                 yield {**case, "mask_float": False}
             if case["perm"] not in ("reverse", "identity"):
                 yield {**case, "perm": "reverse"}
-            if any(v == 0 for v in case["mask"]):
+            if case["mask"] is not None and any(v == 0 for v in case["mask"]):
                 yield {**case, "mask": [1] * len(case["mask"])}
+            for k, dflt in (("defaults", False), ("xdtype", "f8")):
+                if case.get(k, dflt) != dflt:
+                    yield {**case, k: dflt}
+        elif case["kind"] == "bigshuffle":
+            shape = case["shape"]
+            m = rle_decode(case["mask_runs"], int(np.prod(shape))).reshape(shape)
+            for ax in range(len(shape)):
+                for cut in (shape[ax] // 2, shape[ax] * 7 // 8, shape[ax] - 1):
+                    if 1 <= cut < shape[ax]:
+                        sl = [slice(None)] * len(shape)
+                        sl[ax] = slice(0, cut)
+                        yield {**case, "shape": [cut if a == ax else v for a, v in enumerate(shape)], "mask_runs": rle_encode(m[tuple(sl)])}
+            if not m.all():
+                yield {**case, "mask_runs": rle_encode(np.ones(shape))}
+            for k, v in (("mask_float", False), ("layout", "C"), ("perm", "reverse"), ("x", [1, 0, 0])):
+                if case.get(k, v) != v:
+                    yield {**case, k: v}
+        elif case["kind"] == "bigprob":
+            if case["n"] > 1:
+                yield {**case, "n": case["n"] - 1}
+            if case["mask_runs"] is not None:
+                yield {**case, "mask_runs": None}
+        elif case["kind"] == "history":
+            steps = case["steps"]
+            if len(steps) > 1:
+                yield {**case, "steps": steps[1:]}
+                yield {**case, "steps": steps[:-1]}
+            for k, st in enumerate(steps):
+                if st.get("edit") is not None and k > 0:
+                    yield {**case, "steps": steps[:k] + [dict(st, edit=None)] + steps[k + 1:]}
+                if st["fn"] == "prob" and st["n"] > 1:
+                    yield {**case, "steps": steps[:k] + [dict(st, n=st["n"] - 1)] + steps[k + 1:]}
+                if st["perm"] != "reverse":
+                    yield {**case, "steps": steps[:k] + [dict(st, perm="reverse")] + steps[k + 1:]}
         elif case["kind"] == "prob":
             if case["n"] > 1:
                 yield {**case, "n": case["n"] - 1}
@@ -750,6 +1499,9 @@ class C14(Prop):
             for k in ("tx", "ty"):
                 if case[k] is not None:
                     yield {**case, k: None}
+            for k, dflt in (("dtype", ["f8", "f8"]), ("lay", ["C", "C"]), ("negzero", False)):
+                if case.get(k, dflt) != dflt:
+                    yield {**case, k: dflt}
             if case.get("xpow"):
                 yield {k: v for k, v in case.items() if k != "xpow"}
                 for i in (0, 1):
